@@ -25,6 +25,9 @@ fn templates() -> Vec<Program> {
         vec![Dup, Map, Join(2, 0, 0)],
         vec![Dup, Map, Join(0, 0, 1)],
         vec![Dup, Map, Join(2, 0, 1)],
+        vec![Dup, Map, Join(0, 2, 0)],
+        vec![Dup, Map, Join(1, 2, 0)],
+        vec![Dup, Filter, Join(2, 2, 0)],
         vec![Dup, Shuffle, Join(0, 1, 0)],
         vec![Dup, Shuffle, Join(1, 1, 1)],
         vec![Replay(2, vec![Map])],
